@@ -23,7 +23,7 @@ ASSUMPTIONS = [
 
 def cases(tier):
     out = []
-    reps = 1 if tier == "quick" else 15
+    reps = 1 if tier == "quick" else 120
     for n in (1, 2, 3, 4):
         for k in range(1, n + 1):
             for comb in itertools.combinations(range(n), k):
@@ -31,11 +31,11 @@ def cases(tier):
                     out.append(("sq", n, comb, r))
                     if 2 <= n <= 3:
                         out.append(("rect", n, comb, r))
-    for r in range(40 if tier == "quick" else 2000):
+    for r in range(40 if tier == "quick" else 16000):
         out.append(("sq", 5, None, r))
-    for r in range(60 if tier == "quick" else 2000):
+    for r in range(60 if tier == "quick" else 16000):
         out.append(("realign", r))
-    for r in range(40 if tier == "quick" else 800):
+    for r in range(40 if tier == "quick" else 4000):
         out.append(("cvx", r))
     if tier == "thorough":
         out.append(("suite", 0))
